@@ -21,7 +21,8 @@ THEOREMS = ['bin_roundtrip', 'bin_load_total', 'bin_resave', 'adf_roundtrip', 'a
             'xb_writer_uncompressed', 'xb_data_sections_load_alike', 'xb_loader_reads_data_section', 'xb_writer_places_data_section',
             'xb_compressed_file_loads_as_plain', 'xb_compressed_file_exists_iff',
             'xb_roundtrip_compressed_one_font', 'xb_roundtrip_compressed_two_fonts',
-            'xb_compression_transparent_one_font', 'xb_compression_transparent_two_fonts', 'xb_roundtrip_any_page',
+            'xb_compression_transparent_one_font', 'xb_compression_transparent_two_fonts', 'xb_roundtrip_any_page', 'xb_roundtrip_any_two_pages',
+            'xb_compressed_file_spec_conformant',
             'xb_resave_any', 'xb_resave_512', 'known_2_exact', 'known_2_refusal', 'known_2_witness_both_writers',
             'bin_file_roundtrip', 'tnd_file_roundtrip', 'xb_file_roundtrip_one_font', 'xb_file_roundtrip_two_fonts', 'tnd_file_resave',
             'idf_wide_contains_idf', 'idf_roundtrip_any_width', 'idf_resave_any_width', 'known_1_exact']
@@ -901,17 +902,19 @@ TRUSTED = ['Coq 8.16.1 kernel + vm_compute (finite sweeps, model evaluation in s
            'loaded buffer (sizes, layer geometry, line count, modes, palette, fonts, every cell) are compared with the real '
            'Buffer::to_bytes / Buffer::from_bytes on random pictures per the quantifier, on unrepresentable pictures (error branches) and on mutated files',
            'stage C compares through block digests (length + three position-weighted sums per 64 values, computed on both sides) and re-evaluates a differing case in full',
-           'the SAUCE byte layout (property C11): the models take the record as the loader sees it (width, height, ice flag); stage C runs the real record writer and extractor',
+           'the SAUCE byte layout: C11\'s model Model/Sauce.v (write, extract, split), composed with the format models in Model/C05Files.v; stage C compares the complete files Buffer::to_bytes(.., save_sauce) writes '
+           '(the 8 date bytes are taken from the real output) and what Buffer::from_bytes loads from them; chrono\'s date parser is C11\'s oracle',
+           'the XBin compressor / compressed reader: C06\'s Model/XBin.v and C02\'s Model/C02Loaders.v, glued in Model/C05XBinC.v and Proofs/C05XBinCProofs.v (the two reader models are proved to agree); '
+           'whole compressed files are compared byte for byte and cell for cell in stage C',
            'harness/src/c05.rs, the python oracle and the python spec decoders of the search stage']
-UNMODELLED = ['XBin compressed data layout (compress_backtrack / read_data_compressed): property C06; every XBin case here uses SaveOptions.compress = false, '
-              'a compressed file makes the loader model return "unmodelled"',
-              're-save stability is proved for every file the BIN, ADF, IDF and Tundra loaders accept and for XBin files in 256-character mode, under the size side conditions '
-              'stated in the theorems (IDF: within the writer\'s 80 x 200; Tundra: non-negative height, < 2^30 cells, file < 2^29 bytes; BIN/ADF/Tundra: the SAUCE record such a writer makes, or none); '
-              'XBin files in 512-character mode and files outside those side conditions are covered by stages C and S only (two known findings live there)',
+UNMODELLED = ['re-save stability is proved for every file the five loaders accept, with these remaining side conditions: BIN/ADF: the SAUCE record such a writer makes, or none (a .bin file carrying a '
+              'non-BIN record of odd or > 510 width loads with a width BIN cannot store); IDF: at most 200 rows (the writer refuses more: known finding 1, proved to be the exact exception); '
+              'XBin: none except known finding 2 (proved to be the exact exception); Tundra: non-negative height, < 2^30 cells, file < 2^29 bytes (u32 colour indices, bit 31 is special in Palette::get_rgb)',
               'cells whose colour is TextAttribute::TRANSPARENT_COLOR (1 << 31) and buffers with more than one layer, an alpha-channel layer or terminal buffers (Buffer::get_char takes other paths)',
               'fonts that are not embedded in the file (BIN, Tundra: the SAUCE font name), BitFont names other than "is it the default font", guess_font_name beyond that (CRC-32 equality is modelled as glyph equality)',
               'ColorOptimizer (SaveOptions.lossles_output = false): property C12; every case here saves with lossles_output = true',
-              'TerminalState resizing inside set_sauce, file names, SAUCE title/author/comments (C11)']
+              'whole files with their SAUCE bytes are modelled for BIN, Tundra and XBin (Model/C05Files.v); for ADF and IDF the models take the record as the loader sees it (ADF: width 80; IDF ignores it). '
+              'The extension dispatch of Buffer::from_bytes is C02\'s; TerminalState resizing inside set_sauce, file names, SAUCE title/author/comments are C11\'s']
 ASSUMPTIONS = ['Rust u8/u16/i32 operators behave as written into the model: `as u8` is mod 256, `r << 2 | r >> 4` on u8 truncates, i32 `/` truncates, `>>` on i32 is arithmetic',
                'the loop transcriptions: `loop { for _ in 0..width { … } }`, `while o < len` and `while x < width { …; x += rle_count }` are written as structural / fuelled recursion over the byte or cell list (stated in each Model file header); '
                'fuel is shown sufficient inside the round-trip proofs and is never exhausted in stage C',
@@ -922,18 +925,27 @@ RULE = ('random pictures per format from the quantifier: BIN even widths 2..510 
         'cell styles: random bytes, long runs, control-range characters 0..6 and the (1, attribute 0) pattern, printable text, bold folded into high intensity; every tenth picture is spoiled '
         '(character > 255, wrong mode, palette size, extra font page, colours out of range, other width) to exercise the writers\' error branches; mutated files: truncation, extension, byte flips in the '
         'cell area and in the header, single-byte deletion; stage S additionally runs the sizes at the ends of the quantifier (1x1, 80x1, 80x10, 4096 wide, 200 high, 510 / 1000 wide) with cells computed by a '
-        'hash on both sides. A case is non-trivial when the writer produced a file (or the loader accepted the mutated file); distinct = distinct (format, size, options, content).')
+        'hash on both sides. Extension: XBin pictures are saved with either value of SaveOptions.compress (stage C: whole compressed files byte for byte); mutated files include compressed ones; directed re-save inputs: '
+        'XBin files in 512-character mode using pages {0,1} / only 0 / only 1, with and without the font block (hand-made and derived from the writer\'s own files), IDF files 81..300 columns wide with repeat headers crossing column 80; '
+        'files with their SAUCE bytes for BIN, Tundra, XBin. A case is non-trivial when the writer produced a file (or the loader accepted the mutated file); distinct = distinct (format, size, options, content).')
 LEVEL_TEXT = ('Machine-checked proof (Coq, closed under the global context) for all five formats that save-then-load reproduces the picture, for pictures of EVERY size the format admits and every cell content: '
-              'BIN (even width 2..510 with its SAUCE record, any height, all modes), ADF (80 columns, any number of rows incl. none, six-bit palette through the 64-register EGA block, 8x16 font), '
-              'XBin file level with uncompressed data (width 1..4096, height 0..65535, palette block, one font or two fonts of height 1..32 with attribute bit 3 as font page, blink or ice), '
-              'IDF both plain and run-length compressed (1..80 x 1..200), Tundra (width 1..1000 with SAUCE, arbitrary 24-bit colours compared as displayed). '
+              'BIN (even width 2..510, any height, all modes) and Tundra (width 1..1000, arbitrary 24-bit colours compared as displayed) as the BYTES Buffer::to_bytes(.., save_sauce) writes and Buffer::from_bytes reads '
+              '(composition with C11: the width travels through the SAUCE record, the record is cut off exactly), ADF (80 columns, any number of rows incl. none, six-bit palette through the 64-register EGA block, 8x16 font), '
+              'XBin whole files with uncompressed AND compressed data (width 1..4096, height 0..65535, palette block, one or two fonts of height 1..32 with attribute bit 3 as font page, blink or ice; with or without SAUCE bytes), '
+              'IDF plain and run-length compressed (1..200 rows, every header width 1..65536: what lies right of the loader\'s 80-column layer is not stored and comes back unchanged). '
+              'XBin compression is transparent on FILES (composition with C06): for every picture whose size, palette and fonts the format admits - any cells, any one or two font pages - the compressed file exists iff the uncompressed one does, '
+              'both load to one and the same buffer (font page per cell included), and the compressed file is header + blocks + exactly one stream the specification decoder accepts with nothing behind it. '
               '`representable_*` spell out what each format can carry; the conclusion is equality of width, height, mode class, every character, displayed colours, blink, font page, embedded palette and glyph tables. '
-              'Re-save stability (load ANY byte string the loader accepts, save, load again: same picture) is proved for all five formats: BIN and ADF without size conditions, XBin for 256-character uncompressed files, '
-              'IDF for pictures within the writer\'s 80 x 200 limits, Tundra (position jumps included) for pictures of non-negative height below 2^30 cells; 512-character XBin files are checked by differential and oracle runs on mutated files only. '
-              'The models are compared with the real Buffer::to_bytes / from_bytes byte for byte and cell for cell on every run (incl. error and panic branches); constants and tables are regenerated from the source. '
-              'The theorems are about the code after eight small fix commits (XBin/ADF heights below 25, three Tundra colour defects, IDF double repeat header, empty font-page list); '
-              'two known findings remain (IDF and XBin files that load but cannot be saved again). XBin compression is outside (C06).')
-LEVEL_NOTE = ('Trusted: Coq kernel + vm_compute; the python translator for constants/tables; the hand-written writer/loader models, tied by differential execution against the real code on every run '
-              '(bytes and complete buffers, via block digests); the SAUCE record is taken as its decoded fields (C11 proves the bytes); no axioms.')
+              'Re-save stability (load ANY byte string the loader accepts, save, load again: same picture) is proved for all five formats: BIN and ADF without size conditions, '
+              'XBin for EVERY accepted file (256- and 512-character mode, compressed or not, saved with either writer; a file whose cells all sit on page 1 comes back as a one-font file with equal glyphs), '
+              'IDF for every accepted file of at most 200 rows, Tundra (position jumps included, any SAUCE record) for pictures of non-negative height below 2^30 cells. '
+              'The two known findings are proved to be the EXACT exceptions: an accepted IDF file cannot be saved again iff it has more than 200 rows; an accepted XBin file iff it loads with a page-1 cell and no second font. '
+              'The models are compared with the real Buffer::to_bytes / from_bytes byte for byte and cell for cell on every run (incl. error and panic branches, compressed whole files, files with SAUCE bytes, 512-character re-saves); '
+              'constants and tables are regenerated from the source. The theorems are about the code after eight small fix commits (XBin/ADF heights below 25, three Tundra colour defects, IDF double repeat header, empty font-page list).')
+LEVEL_NOTE = ('Trusted: Coq kernel + vm_compute; the python translator for constants/tables; the hand-written writer/loader models (C05 file level, C06 compressor, C02 fixed loaders, C11 SAUCE record), tied by differential '
+              'execution against the real code on every run (bytes and complete buffers, via block digests); chrono\'s date parser as an oracle; no axioms. Still by search only: BIN/ADF files with a foreign SAUCE record, '
+              'Tundra pictures of 2^30 cells or more.')
 TECHNIQUE = ('Coq proof by induction over rows, cells, run-length tokens and colour-change streams on a ragged-line layer model with get-after-set laws; loader/writer state invariants '
-             '(palette extension monotonicity for Tundra); finite vm_compute sweeps for attribute bytes, six-bit channels and flag bits; translator tie for constants, differential tie for function bodies')
+             '(palette extension monotonicity for Tundra; a layer invariant preserved by every set_char of the compressed and uncompressed XBin readers on arbitrary bytes); composition lemmas between the models of '
+             'four properties (C05 file level, C06 compressor and trace readers, C02 layer readers, C11 SAUCE split): trace-to-layer refinement, codec equality on all cells, font-page renumbering; '
+             'finite vm_compute sweeps for attribute bytes, six-bit channels and flag bits; translator tie for constants, differential tie for function bodies')
